@@ -788,9 +788,25 @@ def settle(loop):
         ev.wait(2)
 
 
-def run_case(case):
+def run_case(case, timeout=20.0):
+    """Run one case; a case that does not finish within `timeout` s is reported as a driver error
+    (its thread is abandoned; pool workers are recycled)."""
     d = Driver(case)
-    return d.run()
+    box = {}
+
+    def target():
+        try:
+            box["out"] = d.run()
+        except BaseException as e:  # pragma: no cover
+            box["out"] = {"errors": ["driver crashed: %r" % (e,)], "sched": d.sched, "obs": d.obs, "tapes": d.tapes,
+                          "msgs": d.msg_list, "devcalls": d.devcalls}
+    th = threading.Thread(target=target, daemon=True)
+    th.start()
+    th.join(timeout)
+    if th.is_alive():
+        return {"errors": ["timeout: case did not finish in %.0fs (state %s)" % (timeout, getattr(d, "RE", None) and str(d.RE.state))],
+                "sched": list(d.sched), "obs": list(d.obs), "tapes": d.tapes, "msgs": d.msg_list, "devcalls": d.devcalls}
+    return box["out"]
 
 
 if __name__ == "__main__":
